@@ -284,6 +284,15 @@ class Repo:
                 new.decorator_list = [ast.Name(id="property", ctx=ast.Load())]
                 sub = dict(zip(ps, b.value.args))
                 new.body = [_Getattr().visit(_Sub(sub, {}).visit(st)) for st in new.body]
+                # the getter's receiver is spelled `self` like every hand-written property (its name is the author's choice)
+                recv = (new.args.posonlyargs + new.args.args)
+                if len(recv) == 1 and recv[0].arg != "self" and not any(isinstance(x, ast.Name) and x.id == "self" for x in ast.walk(new)):
+                    old_ = recv[0].arg
+                    recv[0].arg = "self"
+                    recv[0].annotation = None
+                    for x in ast.walk(new):
+                        if isinstance(x, ast.Name) and x.id == old_:
+                            x.id = "self"
                 ast.copy_location(new, b)
                 ast.fix_missing_locations(new)
                 for x in ast.walk(new):
